@@ -627,6 +627,8 @@ func runC30(p *Prog, r *Result) {
 		}
 	}
 
+	r.Rule("R30k", "a read deadline armed on the Runner's stdin on cancellation is cleared by the returned cleanup on every path on which the callback ran", 1)
+	checkDeadlineCleared(p, r, "R30k")
 	// ---- R30j: Reset does not leave jobs of the history running
 	// The entries of bgProcs stand for goroutines that keep running statements of an earlier program on copies that
 	// share the runner's writers. A Reset that forgets them without waiting (a receive from each entry's done channel)
@@ -979,6 +981,8 @@ func enclosingStmt(body *ast.BlockStmt, e ast.Node) ast.Node {
 }
 
 var c30Controls = []Control{
+	{Name: "read-deadline-left-expired", Rule: "R30k", WantKey: "unblockStdinOnCancel#r.stdin.SetReadDeadline armed", File: "interp/builtin.go",
+		Mutate: ctlReplaceAnywhere("\t\t\t<-stopc\n\t\t\tr.stdin.SetReadDeadline(time.Time{})\n", "\t\t\t<-stopc\n")},
 	{Name: "run-shortcuts-plain-statements", Rule: "R30i", WantKey: "case *syntax.Stmt runs it through stmt", File: "interp/api.go",
 		Mutate: ctlReplaceAnywhere("\tcase *syntax.Stmt:\n\t\tr.stmt(ctx, node)\n", "\tcase *syntax.Stmt:\n\t\tif len(node.Redirs) == 0 && !node.Negated && !node.Background {\n\t\t\tr.cmd(ctx, node.Cmd)\n\t\t} else {\n\t\t\tr.stmt(ctx, node)\n\t\t}\n")},
 	{Name: "bgprocs-cleared-not-truncated", Rule: "R30b", WantKey: "literal key bgProcs", File: "interp/api.go",
